@@ -259,7 +259,7 @@ theorem ruleLine_canon (hone : keep one = false) (r : Rule) (hs : KeepStable kee
   simp only
   by_cases hk : keep r.weight = true
   · have h2 : keep (canonH keep c r.weight) = true := by simp [canonH, hk, hs hk]
-    simp [hk, h2, canonH, numTok_rnd, hs hk]
+    simp [hk, canonH, numTok_rnd, hs hk]
   · have h2 : keep (canonH keep c r.weight) = false := by simp [canonH, hk, hone]
     simp [hk, h2]
 
